@@ -27,73 +27,131 @@ type wsFile struct {
 	Imports []string `json:"imports"`
 	Missing bool     `json:"missing"`
 	Kind    string   `json:"kind"`
+	InWs    bool     `json:"inws"`
 }
 type wsExpect struct {
 	File string `json:"file"`
 	Kind string `json:"kind"`
 }
 type wsCase struct {
-	Kind    string     `json:"kind"`
-	Files   []wsFile   `json:"files"`
-	Rev     bool       `json:"rev"`
-	Cyclic  bool       `json:"cyclic"`
-	Self    bool       `json:"selfimport"`
-	Tainted []string   `json:"tainted"`
-	Expect  []wsExpect `json:"expect"`
+	Kind      string     `json:"kind"`
+	Files     []wsFile   `json:"files"`
+	Rev       bool       `json:"rev"`
+	Cyclic    bool       `json:"cyclic"`
+	Self      bool       `json:"selfimport"`
+	Tainted   []string   `json:"tainted"`
+	Compiled  []string   `json:"compiled"`
+	Expect    []wsExpect `json:"expect"`
+	Unsettled []string   `json:"unsettled"`
+	Pinned    bool       `json:"pinned"`
 }
 
-// renderFile turns the abstract file into .proto text.
+// Paths are longer than five characters on purpose: short strings are stored inline by the
+// compiler's intern table, longer ones get ids in first-come order.
+func pathOf(name string) string { return "file_" + name + ".proto" }
+
+const extBasePath = "extension_base.proto"
+
+// renderFile turns the abstract file into .proto text (proto2, one package).
 func renderFile(f wsFile) string {
 	var sb strings.Builder
-	sb.WriteString("syntax = \"proto3\";\npackage p;\n")
+	sb.WriteString("syntax = \"proto2\";\npackage p;\n")
 	imps := append([]string(nil), f.Imports...)
 	sort.Strings(imps)
 	for _, i := range imps {
-		fmt.Fprintf(&sb, "import \"%s.proto\";\n", i)
+		fmt.Fprintf(&sb, "import \"%s\";\n", pathOf(i))
 	}
 	if f.Missing {
 		fmt.Fprintf(&sb, "import \"missing_%s.proto\";\n", f.Name)
 	}
+	if f.Kind == "extclash" {
+		fmt.Fprintf(&sb, "import \"%s\";\n", extBasePath)
+	}
 	fmt.Fprintf(&sb, "message M_%s {\n", f.Name)
 	for n, i := range imps {
-		fmt.Fprintf(&sb, "  M_%s f_%s = %d;\n", i, i, n+1)
+		fmt.Fprintf(&sb, "  optional M_%s f_%s = %d;\n", i, i, n+1)
 	}
 	sb.WriteString("}\n")
 	switch f.Kind {
 	case "ok":
 	case "unknown":
-		fmt.Fprintf(&sb, "message U_%s { Nope_%s x = 1; }\n", f.Name, f.Name)
+		fmt.Fprintf(&sb, "message U_%s { optional Nope_%s x = 1; }\n", f.Name, f.Name)
 	case "dup":
 		fmt.Fprintf(&sb, "message D_%s {}\nmessage D_%s {}\n", f.Name, f.Name)
 	case "syntax":
-		fmt.Fprintf(&sb, "message S_%s { int32 x 1; }\n", f.Name)
+		fmt.Fprintf(&sb, "message S_%s { optional int32 x 1; }\n", f.Name)
 	case "shared":
 		sb.WriteString("message Shared {}\n")
+	case "extclash":
+		fmt.Fprintf(&sb, "extend ExtBase { optional int32 ext_%s = 100; }\n", f.Name)
 	default:
 		harnessFail("unknown file kind " + f.Kind)
 	}
 	return sb.String()
 }
 
-// jitterOpener delays Open calls by a seed-determined pseudo-random amount: a legitimate
-// (slow I/O) way to perturb the schedule through the public API.  Pointer receiver: comparable.
-type jitterOpener struct {
+const extBaseText = "syntax = \"proto2\";\npackage p;\nmessage ExtBase { extensions 100 to max; }\n"
+
+// schedOpener perturbs the schedule through the public API only:
+//   - jitter: seed-determined small delays / yields in Open;
+//   - hold:   opening one chosen path blocks until the IR queries of a given set of other files
+//     have completed (observed through Executor.Keys), i.e. that file is lowered LAST among the
+//     files that do not depend on it.
+//
+// Pointer receiver: comparable, as Opener implementations must be.
+type schedOpener struct {
 	inner source.Opener
 	seed  uint64
 	calls atomic.Uint64
 	maxUS int
+
+	hold      string   // path whose opening is held back ("" = none)
+	waitFor   []string // paths whose IR query must have completed first
+	exec      *incremental.Executor
+	holdLimit time.Duration
+	timedOut  atomic.Bool
 }
 
-func (j *jitterOpener) Open(path string) (*source.File, error) {
+func irDone(exec *incremental.Executor, keys []string, path string) bool {
+	needle := `path:"` + path + `"` // only the IR query's key has a lowercase "path" field
+	for _, k := range keys {
+		if strings.Contains(k, needle) {
+			return true
+		}
+	}
+	return false
+}
+
+func (j *schedOpener) Open(path string) (*source.File, error) {
 	if j.maxUS > 0 {
 		h := fnv.New64a()
 		fmt.Fprintf(h, "%d/%s/%d", j.seed, path, j.calls.Add(1))
 		us := int(h.Sum64() % uint64(j.maxUS+1))
-		switch {
-		case us%3 == 0:
+		if us%3 == 0 {
 			runtime.Gosched()
-		default:
+		} else {
 			time.Sleep(time.Duration(us) * time.Microsecond)
+		}
+	}
+	if path == j.hold && len(j.waitFor) > 0 {
+		deadline := time.Now().Add(j.holdLimit)
+		for {
+			keys := j.exec.Keys()
+			all := true
+			for _, w := range j.waitFor {
+				if !irDone(j.exec, keys, w) {
+					all = false
+					break
+				}
+			}
+			if all {
+				break
+			}
+			if time.Now().After(deadline) {
+				j.timedOut.Store(true)
+				break
+			}
+			time.Sleep(100 * time.Microsecond)
 		}
 	}
 	return j.inner.Open(path)
@@ -105,9 +163,19 @@ type runResult struct {
 	n      int
 	err    string
 	diags  []cDiag
+	heldTO bool
 }
 
-func compileOnce(c *wsCase, texts map[string]string, order []string, par int, seed uint64, jitterUS int, timeout time.Duration) runResult {
+type variant struct {
+	par     int
+	jitter  int
+	hold    string   // path held back
+	waitFor []string // until these are lowered
+	warm    string   // path compiled (IR query) by an earlier Run on the same executor/session
+	label   string
+}
+
+func compileOnce(texts map[string]string, order []string, v variant, seed uint64, timeout time.Duration) runResult {
 	done := make(chan runResult, 1)
 	go func() {
 		var res runResult
@@ -121,17 +189,27 @@ func compileOnce(c *wsCase, texts map[string]string, order []string, par int, se
 		for p, t := range texts {
 			m.Add(p, t)
 		}
-		op := &jitterOpener{inner: &source.Openers{m, source.WKTs()}, seed: seed, maxUS: jitterUS}
-		exec := incremental.New(incremental.WithParallelism(int64(par)))
+		exec := incremental.New(incremental.WithParallelism(int64(v.par)))
+		op := &schedOpener{inner: &source.Openers{m, source.WKTs()}, seed: seed, maxUS: v.jitter,
+			hold: v.hold, waitFor: v.waitFor, exec: exec, holdLimit: 250 * time.Millisecond}
+		session := new(ir.Session)
 		ctx, cancel := context.WithTimeout(context.Background(), timeout)
 		defer cancel()
+		if v.warm != "" {
+			// warm cache: an earlier Run on the same executor and session compiled one file
+			if _, _, err := incremental.Run(ctx, exec, queries.IR{Opener: op, Session: session, Path: v.warm}); err != nil {
+				res.err = "run error (warm-up): " + firstLine(err.Error())
+				return
+			}
+		}
 		_, rep, err := incremental.Run(ctx, exec, queries.Link{
-			Opener: op, Session: new(ir.Session), Workspace: source.NewWorkspace(order...),
+			Opener: op, Session: session, Workspace: source.NewWorkspace(order...),
 		})
 		if err != nil {
 			res.err = "run error: " + firstLine(err.Error())
 			return
 		}
+		res.heldTO = op.timedOut.Load()
 		res.diags = projectReport(rep)
 		res.n = len(res.diags)
 		res.render, _ = renderReport(rep)
@@ -154,14 +232,14 @@ func firstLine(s string) string {
 }
 
 // observedKinds extracts the (file, defect) pairs the spec talks about from a report.
-func observedKinds(ds []cDiag, c *wsCase) map[wsExpect]int {
+func observedKinds(ds []cDiag) map[wsExpect]int {
 	out := map[wsExpect]int{}
 	for _, d := range ds {
 		pf := ""
 		line := ""
 		for _, a := range d.Anns {
 			if a.Primary {
-				pf = strings.TrimSuffix(a.Path, ".proto")
+				pf = strings.TrimSuffix(strings.TrimPrefix(a.Path, "file_"), ".proto")
 				ls := strings.LastIndexByte(a.Text[:a.Start], '\n') + 1
 				le := strings.IndexByte(a.Text[a.Start:], '\n')
 				if le < 0 {
@@ -176,6 +254,8 @@ func observedKinds(ds []cDiag, c *wsCase) map[wsExpect]int {
 		switch {
 		case strings.Contains(d.Msg, "`Shared`"):
 			out[wsExpect{"*", "shared"}]++
+		case strings.Contains(line, "extend ExtBase") || strings.Contains(d.Msg, "ExtBase"):
+			out[wsExpect{"*", "extclash"}]++
 		case strings.Contains(d.Msg, "Nope_"+pf) && pf != "":
 			out[wsExpect{pf, "unknown"}]++
 		case strings.Contains(d.Msg, "`D_"+pf+"`") && pf != "":
@@ -206,23 +286,93 @@ func firstDiff(a, b string) string {
 	return "(projection differs, rendering equal)"
 }
 
+// holdPlan: when `held` is opened last, which files' IR queries can have completed before?  Those
+// reachable from the workspace without going through `held` that do not themselves depend on it.
+func holdPlan(c *wsCase, held string) []string {
+	imports := map[string][]string{}
+	inws := []string{}
+	for _, f := range c.Files {
+		imports[f.Name] = f.Imports
+		if f.Kind == "extclash" {
+			imports[f.Name] = append(append([]string(nil), f.Imports...), "@extbase")
+		}
+		if f.InWs {
+			inws = append(inws, f.Name)
+		}
+	}
+	// reachable from the workspace avoiding `held`
+	reach := map[string]bool{}
+	var walk func(n string)
+	walk = func(n string) {
+		if n == held || reach[n] {
+			return
+		}
+		reach[n] = true
+		for _, i := range imports[n] {
+			walk(i)
+		}
+	}
+	for _, w := range inws {
+		walk(w)
+	}
+	// depends on held (transitively)?
+	memo := map[string]int{}
+	var dep func(n string) bool
+	dep = func(n string) bool {
+		if n == held {
+			return true
+		}
+		if v, ok := memo[n]; ok {
+			return v == 1
+		}
+		memo[n] = 0
+		for _, i := range imports[n] {
+			if dep(i) {
+				memo[n] = 1
+				return true
+			}
+		}
+		return false
+	}
+	var out []string
+	for n := range reach {
+		if !dep(n) {
+			if n == "@extbase" {
+				out = append(out, extBasePath)
+			} else {
+				out = append(out, pathOf(n))
+			}
+		}
+	}
+	sort.Strings(out)
+	return out
+}
+
 func runWS(in *bufio.Scanner, sk *sink, args []string) {
 	fl := flag.NewFlagSet("ws", flag.ExitOnError)
 	parsS := fl.String("pars", "1,2,3,4,5,6,7,8,9,10,11,12,13,14,15,16", "parallelism values")
-	reps := fl.Int("reps", 2, "repetitions per parallelism")
+	reps := fl.Int("reps", 2, "plain repetitions per parallelism (odd ones with Opener jitter)")
+	holdParsS := fl.String("holdpars", "4,16", "parallelism values for the hold-one-file-back variants")
 	workers := fl.Int("workers", 8, "cases compiled concurrently")
 	seed := fl.Uint64("seed", 1, "perturbation seed")
 	jitter := fl.Int("jitter", 200, "max Open() delay in microseconds (odd repetitions only)")
 	timeoutS := fl.Int("timeout", 30, "per-compile timeout, seconds")
 	_ = fl.Parse(args)
-	var pars []int
-	for _, p := range strings.Split(*parsS, ",") {
-		n, err := strconv.Atoi(strings.TrimSpace(p))
-		if err != nil || n < 1 {
-			harnessFail("bad -pars")
+	parseList := func(s string) []int {
+		var out []int
+		for _, p := range strings.Split(s, ",") {
+			if strings.TrimSpace(p) == "" {
+				continue
+			}
+			n, err := strconv.Atoi(strings.TrimSpace(p))
+			if err != nil || n < 1 {
+				harnessFail("bad parallelism list " + s)
+			}
+			out = append(out, n)
 		}
-		pars = append(pars, n)
+		return out
 	}
+	pars, holdPars := parseList(*parsS), parseList(*holdParsS)
 	type job struct {
 		raw []byte
 		c   wsCase
@@ -230,7 +380,7 @@ func runWS(in *bufio.Scanner, sk *sink, args []string) {
 	}
 	jobs := make(chan job, 64)
 	var mu sync.Mutex
-	var nCases, nRuns, nCyclic, nDiffCases, nDiags int64
+	var nCases, nRuns, nCyclic, nDiffCases, nDiags, nHoldRuns, nHoldTimeouts, nWarmRuns, nPinned int64
 	var wg sync.WaitGroup
 	for w := 0; w < *workers; w++ {
 		wg.Add(1)
@@ -240,9 +390,19 @@ func runWS(in *bufio.Scanner, sk *sink, args []string) {
 				c := &j.c
 				texts := map[string]string{}
 				var order []string
+				hasExt := false
 				for _, f := range c.Files {
-					texts[f.Name+".proto"] = renderFile(f)
-					order = append(order, f.Name+".proto")
+					texts[pathOf(f.Name)] = renderFile(f)
+					if f.InWs {
+						order = append(order, pathOf(f.Name))
+					}
+					hasExt = hasExt || f.Kind == "extclash"
+				}
+				if hasExt {
+					texts[extBasePath] = extBaseText
+				}
+				if len(order) == 0 {
+					harnessFail("ws case without workspace files")
 				}
 				if c.Rev {
 					for a, b := 0, len(order)-1; a < b; a, b = a+1, b-1 {
@@ -253,43 +413,79 @@ func runWS(in *bufio.Scanner, sk *sink, args []string) {
 				if c.Cyclic {
 					feature = "cyclic-import-graph"
 				}
-				var base runResult
-				var diffs []string
-				type runErr struct{ kind, msg string }
-				var errs []runErr
-				runs := 0
-				for pi, par := range pars {
+				// the variants: plain runs at every parallelism; for acyclic graphs additionally
+				// "file X is lowered last" at the hold parallelisms and "file X was compiled by an
+				// earlier Run" (warm cache)
+				var variants []variant
+				for _, par := range pars {
 					for rep := 0; rep < *reps; rep++ {
 						jit := 0
 						if rep%2 == 1 {
 							jit = *jitter
 						}
-						s := *seed*1000003 + uint64(j.no)*7919 + uint64(par)*131 + uint64(rep)
-						res := compileOnce(c, texts, order, par, s, jit, time.Duration(*timeoutS)*time.Second)
-						runs++
-						if res.err != "" {
-							kind := "error"
-							switch {
-							case strings.HasPrefix(res.err, "hang"):
-								kind = "hang"
-							case strings.HasPrefix(res.err, "panic"):
-								kind = "panic"
+						variants = append(variants, variant{par: par, jitter: jit, label: fmt.Sprintf("par=%d rep=%d", par, rep)})
+					}
+				}
+				if !c.Cyclic {
+					compiled := append([]string(nil), c.Compiled...)
+					sort.Strings(compiled)
+					for _, x := range compiled {
+						wait := holdPlan(c, x)
+						if len(wait) > 0 {
+							for _, par := range holdPars {
+								variants = append(variants, variant{par: par, hold: pathOf(x), waitFor: wait,
+									label: fmt.Sprintf("par=%d %s-lowered-last", par, pathOf(x))})
 							}
-							errs = append(errs, runErr{kind, fmt.Sprintf("par=%d rep=%d %s", par, rep, res.err)})
-							continue
 						}
-						if pi == 0 && rep == 0 {
-							base = res
-							continue
+						variants = append(variants, variant{par: 1, warm: pathOf(x), label: "par=1 warm:" + pathOf(x)})
+						variants = append(variants, variant{par: 4, warm: pathOf(x), label: "par=4 warm:" + pathOf(x)})
+					}
+				}
+				var base runResult
+				baseLabel := ""
+				var diffs []string
+				diffKinds := map[string]bool{}
+				type runErr struct{ kind, msg string }
+				var errs []runErr
+				runs, holdRuns, holdTO, warmRuns := 0, 0, 0, 0
+				for vi, v := range variants {
+					s := *seed*1000003 + uint64(j.no)*7919 + uint64(vi)*131
+					res := compileOnce(texts, order, v, s, time.Duration(*timeoutS)*time.Second)
+					runs++
+					if v.hold != "" {
+						holdRuns++
+						if res.heldTO {
+							holdTO++
 						}
-						if base.fp == "" {
-							base = res
-							continue
+					}
+					if v.warm != "" {
+						warmRuns++
+					}
+					if res.err != "" {
+						kind := "error"
+						switch {
+						case strings.HasPrefix(res.err, "hang"):
+							kind = "hang"
+						case strings.HasPrefix(res.err, "panic"):
+							kind = "panic"
 						}
-						if res.fp != base.fp && len(diffs) < 4 {
-							diffs = append(diffs, fmt.Sprintf("par=%d rep=%d (%d diagnostics) differs from par=%d rep=0 (%d diagnostics): %s",
-								par, rep, res.n, pars[0], base.n, firstDiff(base.render, res.render)))
-						} else if res.fp != base.fp {
+						errs = append(errs, runErr{kind, v.label + " " + res.err})
+						continue
+					}
+					if base.fp == "" {
+						base, baseLabel = res, v.label
+						continue
+					}
+					if res.fp != base.fp {
+						k := "schedule:" + feature
+						if v.warm != "" {
+							k = "schedule:warm-cache:" + feature
+						}
+						diffKinds[k] = true
+						if len(diffs) < 4 {
+							diffs = append(diffs, fmt.Sprintf("[%s] (%d diagnostics) differs from [%s] (%d diagnostics): %s",
+								v.label, res.n, baseLabel, base.n, firstDiff(base.render, res.render)))
+						} else {
 							diffs = append(diffs, "")
 						}
 					}
@@ -297,21 +493,37 @@ func runWS(in *bufio.Scanner, sk *sink, args []string) {
 				mu.Lock()
 				nCases++
 				nRuns += int64(runs)
+				nHoldRuns += int64(holdRuns)
+				nHoldTimeouts += int64(holdTO)
+				nWarmRuns += int64(warmRuns)
 				nDiags += int64(base.n)
 				if c.Cyclic {
 					nCyclic++
 				}
+				if c.Pinned {
+					nPinned++
+				}
 				for _, e := range errs {
-					cls := "schedule:" + e.kind + ":"
-					sk.report(cls+feature, e.msg, j.raw)
+					sk.report("schedule:"+e.kind+":"+feature, e.msg, j.raw)
 				}
 				if len(diffs) > 0 {
 					nDiffCases++
-					sk.report("schedule:"+feature, fmt.Sprintf("%d of %d runs differ; %s", len(diffs), runs, strings.Join(nonEmpty(diffs), " ;; ")), j.raw)
+					kinds := make([]string, 0, len(diffKinds))
+					for k := range diffKinds {
+						kinds = append(kinds, k)
+					}
+					sort.Strings(kinds)
+					for _, k := range kinds {
+						sk.report(k, fmt.Sprintf("%d of %d runs differ; %s", len(diffs), runs, strings.Join(nonEmpty(diffs), " ;; ")), j.raw)
+					}
 				}
 				// the workspace is invalid in the way the spec says (acyclic only): renderer sanity
 				if !c.Cyclic && base.fp != "" {
-					obs := observedKinds(base.diags, c)
+					unsettled := map[string]bool{}
+					for _, k := range c.Unsettled {
+						unsettled[k] = true
+					}
+					obs := observedKinds(base.diags)
 					for _, e := range c.Expect {
 						if obs[e] == 0 {
 							sk.report("expectation:missing-diagnostic:"+e.Kind, fmt.Sprintf("expected a %q diagnostic for file %s; report has %d diagnostics", e.Kind, e.File, base.n), j.raw)
@@ -319,6 +531,9 @@ func runWS(in *bufio.Scanner, sk *sink, args []string) {
 						delete(obs, e)
 					}
 					for e := range obs {
+						if unsettled[e.Kind] {
+							continue
+						}
 						sk.report("expectation:unexpected-diagnostic:"+e.Kind, fmt.Sprintf("unexpected %q diagnostic for file %s", e.Kind, e.File), j.raw)
 					}
 				}
@@ -342,7 +557,8 @@ func runWS(in *bufio.Scanner, sk *sink, args []string) {
 	close(jobs)
 	wg.Wait()
 	stats(map[string]any{"cases": nCases, "compiles": nRuns, "cyclic_cases": nCyclic, "cases_with_differences": nDiffCases,
-		"diagnostics_in_baselines": nDiags, "pars": pars, "reps": *reps, "classes": sk.perClass})
+		"diagnostics_in_baselines": nDiags, "pars": pars, "reps": *reps, "hold_runs": nHoldRuns, "hold_timeouts": nHoldTimeouts,
+		"warm_runs": nWarmRuns, "imported_only_clash_cases": nPinned, "classes": sk.perClass})
 }
 
 func nonEmpty(ss []string) []string {
